@@ -58,6 +58,9 @@ type rsGenCfg struct {
 	MaxCycle func(rt *rapid.T) uint64
 	GRB      bool // sometimes take the instance through a binary round trip
 	Vary     bool
+	// JSONFront: a fifth of the rule sets reach the builder through the JSON front end (a JSON rule set whose
+	// when/then members are the raw GRL of the rules; description and salience stated or omitted as in the rule)
+	JSONFront bool
 }
 
 func defaultMaxCycle(rt *rapid.T) uint64 {
@@ -97,6 +100,35 @@ func genRSCase(rt *rapid.T, cfg rsGenCfg) (*val.Case, *gen.RuleSet) {
 			c.Texts = []string{strings.Join(parts[:cut], ""), strings.Join(parts[cut:cut2], ""), strings.Join(parts[cut2:], "")}
 		}
 		rs.Feat["built_from_several_resources"]++
+	}
+	if cfg.JSONFront && rapid.IntRange(0, 4).Draw(rt, "json_front_end") == 0 {
+		var set []interface{}
+		for _, i := range order {
+			r := rs.Rules[i]
+			m := map[string]interface{}{"name": r.Name, "when": gast.ExprString(r.When)}
+			var then []interface{}
+			for _, st := range r.Then {
+				then = append(then, gast.StmtString(st))
+			}
+			m["then"] = then
+			if r.Desc != nil {
+				m["desc"] = *r.Desc
+			}
+			if r.Salience != nil {
+				m["salience"] = *r.Salience
+			}
+			set = append(set, m)
+		}
+		jb, jerr := json.Marshal(set)
+		if jerr != nil {
+			rt.Fatalf("harness: %v", jerr)
+		}
+		text, terr, pan := c18Translate(string(jb))
+		if terr != nil || pan != nil {
+			rt.Fatalf("harness: the JSON front end does not translate a rule set of raw GRL members: %v %v\n%s", terr, pan, jb)
+		}
+		c.Text, c.Texts = text, nil
+		rs.Feat["loaded_through_the_json_front_end"]++
 	}
 	for _, r := range rs.Rules {
 		c.SoloTexts[r.Name] = gast.RuleString(r)
